@@ -78,7 +78,8 @@ Definition ue_codes (u : uectx) (o : ue_obs) : list Z :=
    then [] else [4]) ++
   (if list_eqb (fun r o => rec_matches r o) (u_records u) (uo_records o) then [] else [5]) ++
   (if cdrmap_eqb (u_cdr u) (uo_cdr o) then [] else [6]) ++
-  (if list_eqb (fun r o => rsize r =? ro_berlen o) (u_records u) (uo_records o) then [] else [8]).
+  (* -2: the record holds information outside the model (PDU session stratum): sizes not compared *)
+  (if list_eqb (fun r o => (ro_berlen o =? -2) || (rsize r =? ro_berlen o)) (u_records u) (uo_records o) then [] else [8]).
 
 (* an observation with ob_lrsn = -1 carries the answer only (a request served inside a concurrent
    burst: the state is observed once, after the burst) *)
